@@ -138,6 +138,26 @@ Theorem C10_v1_lookup_cases :
 Proof. exact v1_lookup_cases. Qed.
 Print Assumptions C10_v1_lookup_cases.
 
+(* docs/execlayer.md words the legacy precedence PER VALUE (entry, else default_config, else
+   fallback: [resolve_v1_doc]).  Full statement:
+     forall c key fbfee fbgas, proposer_config_v1 c key fbfee fbgas = resolve_v1_doc c key fbfee fbgas.
+   The code selects one whole entry, so this holds only for lookups whose key has no entry or an
+   entry with both a gas limit and a builder (a null entry counts as incomplete) ... *)
+Theorem C10_v1_fieldwise_partial :
+  forall (c : config1) (key fbfee fbgas : N),
+    v1_entry_complete c key = true ->
+    proposer_config_v1 c key fbfee fbgas = resolve_v1_doc c key fbfee fbgas.
+Proof. exact v1_fieldwise_partial. Qed.
+Print Assumptions C10_v1_fieldwise_partial.
+
+(* ... and fails on the document's own example (an entry with only a fee recipient does not get
+   the builder of default_config).  Known finding C10-v1-entry-not-fieldwise. *)
+Theorem C10_v1_fieldwise_refuted :
+  exists (c : config1) (key fbfee fbgas : N),
+    proposer_config_v1 c key fbfee fbgas <> resolve_v1_doc c key fbfee fbgas.
+Proof. exact v1_fieldwise_refuted. Qed.
+Print Assumptions C10_v1_fieldwise_refuted.
+
 (* Either version behind the ExecutionConfigurator interface. *)
 Theorem C10_lookup_is_resolve :
   forall (c : config) (v : validator) (fbfee fbgas : N),
